@@ -12,7 +12,7 @@ Definition c_fastq_write (v : val) : val :=
   match v with
   | VL [VB n; VB s; VB q] =>
     let r := {| name := n; seq := s; quals := q |} in
-    VL [VL (map VB (write_calls r)); v_outcome VB (marshal_text r)]
+    VL [VB (concat (write_calls r)); v_outcome VB (marshal_text r)]
   | _ => v_bad
   end.
 
